@@ -54,6 +54,21 @@ def _install_raw_probe():
     ot.Coverage._vmc_probe = True
 
 
+def _pairsets_unsorted(font):
+    """PairPos format 1: the records of a PairSet must be ordered by the glyph id of the second glyph (consumers search them)"""
+    out = []
+    if "GPOS" in font and font["GPOS"].table.LookupList:
+        for li, lk in enumerate(font["GPOS"].table.LookupList.Lookup):
+            for st in lk.SubTable:
+                st = getattr(st, "ExtSubTable", st)
+                if type(st).__name__ == "PairPos" and st.Format == 1:
+                    for ps in st.PairSet:
+                        ids = [font.getGlyphID(r.SecondGlyph) for r in ps.PairValueRecord]
+                        if any(b <= a for a, b in zip(ids, ids[1:])):
+                            out.append(f"GPOS lookup {li}: a PairSet lists second glyph ids {ids}")
+    return out
+
+
 def source_font(which):
     if which == "layout":
         from vmc.gen import layoutfont
@@ -124,6 +139,9 @@ def step(case):
         vs.append(bad("C11.coverage-sorted", f"order {case['order']}: {raw[:3]}"))
     if warn:
         vs.append(bad("C11.coverage-sorted", f"order {case['order']}: fontTools warns: {warn[:1]}"))
+    ps = _pairsets_unsorted(f2)
+    if ps:
+        vs.append(bad("C11.pairset-sorted", f"order {case['order']}: {ps[0]}"))
     if not vs:
         vs.append(ok("C11.state", None))
     return vs, out
@@ -275,6 +293,6 @@ def run(report, tier, only=None):
         "E5: breadth-first search over all orders of the movable glyphs (quick 5! = 120, thorough 6! = 720) of a font carrying one lookup of every "
         "GSUB/GPOS type+format and every glyph-keyed GDEF structure; each transition calls the real reorder_glyphs on the already reordered font, saves, "
         "reloads; in every state the name-keyed facts (cmap, hmtx, outlines, COLR, every lookup zipped coverage->record) must equal the initial ones and "
-        "every coverage in the binary must be sorted; from the initial font also two calls in a row on one loaded font object (via the reversed order to every order); the same on a real nanoemoji COLRv1 font with GSUB and on a second layout font in whose parallel arrays two glyphs carry equal entries; distinct = orders reached per font"
+        "every coverage in the binary must be sorted and every PairSet ordered by second glyph id; from the initial font also two calls in a row on one loaded font object (via the reversed order to every order); the same on a real nanoemoji COLRv1 font with GSUB and on a second layout font in whose parallel arrays two glyphs carry equal entries; distinct = orders reached per font"
     )
     report.assumptions += ["fontTools compiles coverage tables in the order given (it does not sort them), so unsorted input shows up in the binary"]
